@@ -313,16 +313,15 @@ theorem errUnmanaged_writes :
   decide
 
 /-- Both front ends reach the run the theorems above talk about: `drc FILE` without `-C` and
-`do-approve approve DEVICE` execute ApproveOrCompare with `isCompare = false`. -/
+`do-approve approve DEVICE` are `runMain` with `isCompare = false` (the dispatch tables these
+functions use are tied to the source by `front_ends_match`). -/
 theorem front_ends_run_approve (b : Backend) (cfg : Cfg) (flags : List String) (dev : Dev) (plan : List String) :
     (drcIsCompare flags = false →
-      exec ⟨cfg, dev, plan⟩ (drcMain b cfg flags 1) {} =
-        exec ⟨cfg, dev, plan⟩ (approveOrCompareP b { cfg with isCompare := false }) {}) ∧
-    exec ⟨cfg, dev, plan⟩ (doApproveMain b cfg "approve") {} =
-      exec ⟨cfg, dev, plan⟩ (approveOrCompareP b { cfg with isCompare := false }) {} := by
+      runDrc b cfg dev plan flags 1 = runMain b ⟨{ cfg with isCompare := false }, dev, plan⟩) ∧
+    runDoApprove b cfg dev plan "approve" = runMain b ⟨{ cfg with isCompare := false }, dev, plan⟩ := by
   refine ⟨?_, ?_⟩
-  · intro h; simp [drcMain, h]
-  · simp [doApproveMain]
+  · intro h; simp [runDrc, h]
+  · simp [runDoApprove, doApproveCases, List.lookup, doApproveCompareWord]
 
 def obligations : List Lean.Name := [
   ``front_ends_run_approve,
